@@ -1,14 +1,40 @@
 //! vx_query: see /verif/harness/AGENTS-GUIDE.md; one module per property, dispatched on the property id.
 
+mod c12;
+mod c16;
+mod c19;
+mod c20;
+mod c29;
+mod common;
+mod qutil;
+
+/// lance-index keeps its split-block bloom filter (`Sbbf`) in a private module; the very source files
+/// are compiled here (unchanged, by path) so that C20 can drive them directly. The module path mirrors
+/// lance-index's so that `crate::scalar::bloomfilter::as_bytes` resolves.
+#[allow(dead_code, clippy::all)]
+pub mod scalar {
+    pub mod bloomfilter {
+        #[path = "/repo/rust/lance-index/src/scalar/bloomfilter/as_bytes.rs"]
+        pub mod as_bytes;
+        #[path = "/repo/rust/lance-index/src/scalar/bloomfilter/sbbf.rs"]
+        pub mod sbbf;
+    }
+}
+
 use vcore::{machinery_error, Ctx};
 
 fn main() {
     let ctx = Ctx::from_args();
-    vcore::quiet_panics();
-    #[allow(clippy::match_single_binding)]
+    if std::env::var("VX_LOUD").is_err() {
+        vcore::quiet_panics();
+    }
     let out: vcore::Outcome = match ctx.id.as_str() {
+        "C12" => c12::run(&ctx),
+        "C16" => c16::run(&ctx),
+        "C19" => c19::run(&ctx),
+        "C20" => c20::run(&ctx),
+        "C29" => c29::run(&ctx),
         other => machinery_error(&format!("vx_query does not implement {other}")),
     };
-    #[allow(unreachable_code)]
     vcore::finish(&ctx, out);
 }
